@@ -199,6 +199,10 @@ def apply_op(op, a, b):
         return a - b
     if op == "**":
         return a ** b
+    if op == "%":
+        return a % b           # Python: the sign of the divisor
+    if op == "//":
+        return a // b
     raise ValueError(op)
 
 
@@ -271,7 +275,7 @@ def navigate(inst, path):
 
 
 def has_division_by_zero(e, vec):
-    if e["t"] == "arith" and e["op"] == "/":
+    if e["t"] == "arith" and e["op"] in ("/", "%", "//"):
         if has_division_by_zero(e["l"], vec) or has_division_by_zero(e["r"], vec):
             return True
         try:
@@ -467,6 +471,8 @@ def tree_features(t, acc=None, under=None):
             acc.add("a - b (NBin OAdd a (NUn UNeg b))")
         if t["op"] == "+" and t["l"]["t"] == "unary" and t["l"]["op"] == "neg" and t["r"]["t"] == "const":
             acc.add("const - b (NBin OAdd (NUn UNeg b) const)")
+        if t["op"] in ("%", "//"):
+            acc.add("NBin %s (%s %s %s)" % ({"%": "OMod", "//": "OFloorDiv"}[t["op"]], t["l"]["t"], t["op"], t["r"]["t"]))
         tree_features(t["l"], acc, "arith")
         tree_features(t["r"], acc, "arith")
     elif k == "tuple":
